@@ -12,7 +12,7 @@ BQ = {name: 1 for name, _ in PROGRAMS}
 BT = {"close-vs-send": 2, "close-vs-close": 2, "close-vs-compressed-send": 2, "close-vs-loop-echo": 1, "close-vs-loop-pong-and-ping": 1}
 RULE = ('every schedule with at most 1-2 pre-emptions (line granularity, stateless exhaustive search) of 5 thread programs built around close(): close() against '
         'send_text/send_binary/send_ping, against another close(), against the loop echoing a server Close, answering a Ping and sending an automatic Ping; every '
-        'sendall split in two steps; thorough adds 6000 random opcode-granular schedules; non-trivial = distinct (program, wire order, call results)')
+        'sendall split in two steps; every schedule with one pre-emption at OPCODE granularity for the two-thread programs; thorough adds 6000 random opcode-granular schedules; non-trivial = distinct (program, wire order, call results)')
 
 
 def run(tier, seed):
